@@ -174,6 +174,41 @@ for _i, (_name, _ind, _pos, _d) in enumerate(_P3):
        bound="%s docstring with footer (indent %d) and ANY code point inserted at offset %d: no header/footer prose inside any typ/default" % (_name, _ind, _pos))(_absorb(_d, _pos))
 
 
+# --- P3.plain: the UNDAMAGED footer-carrying docstrings: parsing succeeds (they are well-formed members of the quantifier's domain) and nothing is absorbed ---------
+def _plain(doc):
+    def body(c):
+        import cdd.docstring.utils.parse_utils as pu
+        from cdd.shared.docstring_parsers import parse_docstring
+        from chx.shim import shim
+        from harness.shims import ADHOC_SHIMS
+
+        d = doc.replace("Footerprose notes", "Footerprose not" + chr(c) + "s")
+        with shim(pu, **ADHOC_SHIMS):
+            try:
+                ir = parse_docstring(d)
+            except Exception as e:
+                return "a well-formed docstring (header, generated section, footer) is rejected by the parser: %s: %s" % (type(e).__name__, e)
+        entries = list(ir["params"].items()) + (list(ir["returns"].items()) if ir.get("returns") else [])
+        for name, e in entries:
+            for key in ("typ", "default"):
+                v = e.get(key)
+                if isinstance(v, str) and ("Footerprose" in v or "Header line" in v or "More header" in v):
+                    return "prose absorbed into the %s of %s: %r" % (key, name, v)
+        return ""
+
+    return body
+
+
+for _name, _doc in EXTRA_SKELETONS.items():
+    if "Footerprose notes" not in _doc:
+        continue
+    for _ind in (0, 4):
+        ob("C15", "P3.plain.%s.i%d" % (_name, _ind), {"c": PR}, pre="c != 46 and c != 58", T=300,
+           funcs=["cdd.shared.docstring_parsers.parse_docstring", "cdd.shared.defaults_utils.extract_default"],
+           bound="the %s docstring with footer at indent %d, one footer word carrying ANY printable character except '.' and ':' (a colon turns a NumPy-style line into a name : type entry by that format's own grammar): the parser accepts it and no header/footer prose is inside any typ/default" % (_name, _ind),
+           )(_plain(indented(_doc, _ind)))
+
+
 # --- P4: style conversion keeps every header line, in order ---------------------------------------------------------------------
 HEAD = ("Summary line %s here.", "", "Long description first line.", "Second %s line of it.")
 SECTIONS = {
